@@ -23,7 +23,7 @@ RULE = ("a probe model M is observed (argument names and values, state map, RHS 
         "process-global caches are recorded; non-trivial = history contains >= 1 compile of a model related to M; distinct = "
         "distinct (M, history) hash")
 DECIDING = ['observations_compared', 'earlier_functions_rechecked', 'hist_steps', 'hist_compiles', 'hist_no_clear_compiles',
-            'hist_exceptions', 'hist_same_opname', 'hist_same_objects', 'shared_subcircuit_cases', 'hist_shared_update_var', 'input_history_cases', 'revectorize_cases', 'fortran_file_name_cases', 'large_array_cases', 'probe_models_with_zero_override']
+            'hist_exceptions', 'hist_same_opname', 'hist_same_objects', 'shared_subcircuit_cases', 'hist_shared_update_var', 'input_history_cases', 'revectorize_cases', 'fortran_file_name_cases', 'large_array_cases', 'list_default_cases', 'probe_models_with_zero_override']
 ASSUMPTIONS = ['the probe model is observed through fresh template objects built from its spec (the state carry-over of a '
                'template object is documented statefulness, DESIGN 4a)']
 CASE_TIMEOUT = 300
@@ -50,6 +50,7 @@ def plan(tier, seed):
     cases += [{'family': 'fortran_file_name', 'cseed': rnd.randrange(1 << 30)} for _ in range(10 if tier == 'quick' else 150)]
     # operators that differ only in interior elements of a long constant vector
     cases += [{'family': 'large_array_constants', 'cseed': rnd.randrange(1 << 30)} for _ in range(8 if tier == 'quick' else 100)]
+    cases += [{'family': 'list_valued_defaults', 'cseed': rnd.randrange(1 << 30)} for _ in range(8 if tier == 'quick' else 100)]
     # a circuit loaded from YAML, modified, and the same path loaded again
     fam = 'probe:from_yaml_cached_circuit_modified' if 'from_yaml_cached_circuit_modified' in opened else 'yaml_reload'
     cases += [{'family': fam, 'cseed': rnd.randrange(1 << 30)} for _ in range(8 if tier == 'quick' else 100)]
@@ -611,6 +612,49 @@ def run_large_array_case(case, ctx):
     return res
 
 
+def run_list_default_case(case, ctx):
+    """An operator whose constant is declared with a list-valued default (dict form, shape (1,)) sits on several nodes of one
+    vectorized circuit; the same model is compiled two or three times in one process without clear(): every compilation must
+    succeed and read the declared value on every node."""
+    from pyrates import OperatorTemplate, NodeTemplate, CircuitTemplate
+    rnd = random.Random(case['cseed'])
+    n_nodes = rnd.choice([2, 3, 4])
+    kval = round(rnd.uniform(0.5, 3.0), 4)
+    x0 = round(rnd.uniform(0.1, 0.9), 4)
+    name = f"lst_op{rnd.randrange(1000)}"
+    mech = {}
+    res = {'features': ['list_valued_defaults', f'n{n_nodes}'], 'risk': [], 'sig': stable_hash([n_nodes, kval, x0, case['cseed']]), 'nontrivial': True}
+
+    def mk():
+        op = OperatorTemplate(name=name, path='none', equations=["x' = -x + k"],
+                              variables={'x': f'output({x0})', 'k': {'vtype': 'constant', 'value': [kval], 'shape': (1,), 'dtype': 'float'}})
+        node = NodeTemplate(name='lst_node', path='none', operators=[op])
+        return CircuitTemplate(name='lst', path='none', nodes={f'p{i}': node for i in range(n_nodes)})
+    try:
+        for vi in range(rnd.choice([2, 3])):
+            try:
+                f, args, names, smap = mk().get_run_func('vf', step_size=1e-3, vectorize=True, verbose=False, clear=False, in_place=False,
+                                                      float_precision='float64')
+                got = np.asarray(f(*args), dtype=float).ravel()
+            except Exception as e:
+                raise observe.Mismatch(f"loud: compilation number {vi + 1} of a model with a list-valued constant default on {n_nodes} nodes "
+                                       f"raised {type(e).__name__}: {e}")
+            mech['hist_steps'] = mech.get('hist_steps', 0) + 1
+            mech['hist_compiles'] = mech.get('hist_compiles', 0) + 1
+            mech['hist_no_clear_compiles'] = mech.get('hist_no_clear_compiles', 0) + 1
+            want = np.full(n_nodes, -x0 + kval)
+            if got.shape != want.shape or not np.allclose(got, want, rtol=1e-12, atol=1e-12):
+                raise observe.Mismatch(f"compilation number {vi + 1} of a model with the list-valued constant default [{kval}] on {n_nodes} nodes: "
+                                       f"vector field {got.tolist()}, declared model gives {want.tolist()}")
+            mech['observations_compared'] = mech.get('observations_compared', 0) + 1
+        mech['list_default_cases'] = 1
+        res.update(status='ok', symptom='', mech=mech, sample={'nodes': n_nodes, 'k': kval})
+    except observe.Mismatch as e:
+        s2 = str(e)
+        res.update(status='violation', symptom=('silent: ' if 'loud' not in s2 else '') + s2, mech=mech, spec={'n_nodes': n_nodes, 'k': kval})
+    return res
+
+
 def run_yaml_reload_case(case, ctx):
     """A YAML-defined circuit is loaded, the loaded circuit is modified (update_var / in-place edge addition) and possibly
     simulated; the SAME path is then loaded again: the second circuit must be the model the file defines."""
@@ -673,6 +717,8 @@ def run_case(case, ctx):
         return run_fortran_case(case, ctx)
     if case.get('family') == 'large_array_constants':
         return run_large_array_case(case, ctx)
+    if case.get('family') == 'list_valued_defaults':
+        return run_list_default_case(case, ctx)
     if case.get('family') == 'revectorize':
         return run_revectorize_case(case, ctx)
     if case.get('family') == 'shared_subcircuits':
